@@ -6,11 +6,13 @@ import datagen as dg
 from common import xr, xvec, from_xvec, tokens_close
 
 ID = "C01"
-TARGETS = ["Proofs.C01"]
+TARGETS = ["Proofs.C01", "Proofs.DataRefine"]
 GEN_PREFIXES = []
 THEOREMS = {"Proofs.C01": ["VerifModel.C01." + t for t in [
     "C01_propagate_cell", "C01_propagate_nan_iff", "C01_propagate_keeps", "C01_same_validity",
-    "C01_same_cases", "cut_shape", "C01_obs_borrowed", "C01_noninterference", "anyNanAt_set"]]}
+    "C01_same_cases", "cut_shape", "C01_obs_borrowed", "C01_noninterference", "anyNanAt_set"]],
+    "Proofs.DataRefine": ["VerifModel.DataRefine." + t for t in [
+        "getScores_refines", "C01_same_case_set", "getScores_over_specCases"]]}
 TRUSTED_BASE = [
     "Lean 4.33 kernel; axioms propext, Classical.choice, Quot.sound only",
     "Model/Data.lean: hand-written pure model of Data.__init__/_get_score/get_scores (nested lists for 3-D "
@@ -18,12 +20,18 @@ TRUSTED_BASE = [
     "real code by the data.req correspondence stream on every run",
     "harness/datagen.py: in-memory verif.input.Input subclass (no file I/O on this stream) and the coordinate-based "
     "oracle written from the README's fair-comparison paragraph",
+    "Spec/DataCoord.lean: the coordinate-based specification (lookup by coordinate value, value sets, valid cases); "
+    "it is what getScores_refines proves the model equal to, and it is evaluated by the driver (op specdata) next to "
+    "the Python oracle on every data op",
 ]
 ASSUMPTIONS = [
     "NoInf: stored values are finite or missing (an infinite stored value is dropped for its own input only; "
     "generators include it on a separate stream judged by the oracle alone)",
     "ObsAgree: inputs that store observations store equal values wherever both are non-missing",
     "init times are whole seconds >= 0",
+    "getScores_refines: Data.init succeeds and every stored array has the shape its input declares (wfInput; true by "
+    "construction of the op encoding); nothing is assumed about the request or about repeated / NaN coordinates; "
+    "C01_same_case_set additionally ObsRangeAgree (no -obsrange, or ObsAgree)",
 ]
 RULE = ("data.req: generated datasets of 1-4 inputs (+ optional climatology, subtract or divide), each dimension 1-4 "
         "entries per input with partial overlap, different orders and rare repeats; fields obs/fcst/pit; missingness per "
@@ -36,8 +44,12 @@ LEVEL_TEXT = ("Lean theorems about the pure model of Data: after loading, a cell
               "is missing in any input (incl. the climatology) and otherwise keeps its own value; hence the validity mask "
               "and the contributing case list of a request do not depend on the input index (NoInf), inputs without "
               "observations get the first available observation array, and changing finite forecast values of another "
-              "input changes nothing (non-interference). The model is tied to the real Data class by differential "
-              "correspondence; the coordinate-level oracle decides the property on the implementation.")
+              "input changes nothing (non-interference). End to end (Proofs/DataRefine.lean, getScores_refines): every "
+              "request to the index-based model returns exactly the coordinate-based specification (the requested values "
+              "at the verified coordinates where every input and the climatology have usable values, identical error "
+              "exits); corollary C01_same_case_set: the contributing coordinates are the same for any two scored inputs. "
+              "The model is tied to the real Data class by differential correspondence; the coordinate-level Python "
+              "oracle and the Lean specification (driver op specdata) both decide the property on the implementation.")
 TECHNIQUE = "Lean 4 proof over a hand-written model of Data + differential correspondence against the real class"
 
 
@@ -84,12 +96,54 @@ def cmp(op, impl_out, model_out):
     return tokens_close(impl_out, model_out, 1e-9, 1e-12)
 
 
+def spec_op(op):
+    """the Lean coordinate-based specification (Spec/DataCoord.lean) on the same encoding.  The dataset hypothesis of
+    getScores_refines (arrays of the declared shape) holds by construction of the encoding (the driver would answer
+    HYP otherwise); the theorem has no hypothesis on the request."""
+    if op.startswith("data "):
+        return "specdata " + op[len("data "):]
+    return None
+
+
+def _judge_spec(op, impl_out, spec_out):
+    """implementation vs. the Lean specification (exact rationals, compared like the model reply)"""
+    if spec_out is None or spec_out == "HYP" or spec_out.startswith("ERR driver") or impl_out.startswith("EXC:"):
+        return None
+    ia, sa = impl_out.split(" | "), spec_out.split(" | ")
+    if (impl_out == "ERR init") != (spec_out == "ERR init"):
+        return ({"kind": "coordinate-spec", "part": "init"},
+                "Data() gives %s, the Lean coordinate specification %s" % (ia[0][:200], sa[0][:200]))
+    if impl_out == "ERR init":
+        return None
+    if not tokens_close(ia[0], sa[0], 1e-9, 1e-12):
+        return ({"kind": "coordinate-spec", "part": "dims"},
+                "verified dimensions %s, Lean coordinate specification %s" % (ia[0][:200], sa[0][:200]))
+    ds, reqs = dg.dec_op(op)
+    for r, got, want in zip(reqs, ia[1:], sa[1:]):
+        if want == "HYP" or want.startswith("ERR bad-req"):
+            continue
+        if not tokens_close(got, want, 1e-9, 1e-12):
+            return ({"kind": "coordinate-spec", "part": "answer", "axis": r[2]},
+                    "request fields=%s input=%d axis=%s index=%s returns %s, the Lean coordinate specification gives %s" %
+                    ("+".join(r[0]), r[1], r[2], r[3], got[:200], want[:200]))
+    return None
+
+
 def _parse_reply(s):
     parts = s.split(" | ")
     return parts[0], parts[1:]
 
 
 def judge(op, impl_out, spec_out):
+    v = _judge_oracle(op, impl_out)
+    if v is not None:
+        return v
+    if op.startswith("data "):
+        return _judge_spec(op, impl_out, spec_out)
+    return None
+
+
+def _judge_oracle(op, impl_out):
     if op.startswith("datani "):
         if impl_out != "same":
             return ({"kind": "interference"}, "changing another input's finite forecasts changed this input's result: %s" % impl_out[:300])
